@@ -514,6 +514,9 @@ func c20Build(rng *rand.Rand, id int, kind string, dir string, maxBytes int) (*c
 	var profiles []string
 	if kind == "small" {
 		profiles = []string{"few"}
+	} else if kind == "app" {
+		// the appender part runs under the race detector: moderate sizes
+		profiles = []string{"typical", "typical", "typical", "mixed", "timeline", "few"}
 	} else {
 		profiles = []string{"typical", "typical", "mixed", "mixed", "mixed", "mixed", "heavy", "heavy", "heavy",
 			"window-edge", "window-edge", "window-edge", "probe-edge", "probe-edge", "probe-edge", "one-window", "few",
